@@ -233,7 +233,13 @@ func cmdCheck(args []string) int {
 	}
 
 	// hangs: confirm in a fresh process with 4x the budget
-	for _, h := range hangs {
+	confirmedHangs := 0
+	for hi, h := range hangs {
+		if confirmedHangs >= 2 {
+			// every confirmation costs the full budget: two confirmed hangs are a verdict, the rest are counted
+			notes = append(notes, fmt.Sprintf("%d further watchdog expiries not confirmed individually", len(hangs)-hi))
+			break
+		}
 		fmt.Printf("worker reported a hanging engine call at run %d (seed %d); confirming in a fresh process\n", h.RunIndex, h.Seed)
 		rf := &ReplayFile{Property: "C05", Check: h.profile, Oracle: "no-hang", Fingerprint: "C05.hang", Message: h.Msg, Seed: h.Seed, Variant: h.Variant, FoundAtRun: h.RunIndex, BaseSeed: seed, Tier: *tier}
 		path := writeReplay(rf)
@@ -241,6 +247,7 @@ func cmdCheck(args []string) int {
 		cmd.Env = append(os.Environ(), "VERIF_DIR="+verifDir())
 		err := cmd.Run()
 		if ee, ok := err.(*exec.ExitError); ok && ee.ExitCode() == 3 {
+			confirmedHangs++
 			if baseProp(*prop) == "C05" {
 				fmt.Printf("VIOLATION property=C05 replay=%s\n", path)
 				violations++
@@ -267,7 +274,10 @@ func cmdCheck(args []string) int {
 		var hit *world.Violation
 		var r *world.RunResult
 		replays := 0
-		if c.Tape == nil || c.profile == "C08m3" {
+		if c.Tape == nil || c.profile == "C08m3" || confirmedHangs > 0 {
+			// (after a confirmed hang nothing is executed inside the driver any more: a replay that never
+			// returns or eats the machine's memory would take the verdicts already reached with it; the
+			// fresh-process replay below has its own watchdog)
 			// not minimisable by this (plain) build: process-level findings carry their history in the
 			// replay file; controlled-order findings are confirmed by the instrumented build's replay
 			hit = &world.Violation{Prop: c.Prop, Oracle: c.Oracle, Fingerprint: c.Fingerprint, Msg: c.Msg}
